@@ -26,7 +26,14 @@ def hexs(b):
 
 def run_case(arg):
     idx, case, scratch = arg
-    w = World(os.path.join(scratch, f"c06-{os.getpid()}-{idx}"))
+    root = os.path.join(scratch, f"c06-{os.getpid()}-{idx}")
+    if case["kind"] == "sequence":
+        try:
+            v, o = judge_sequence(root, case)
+            return [(sig, f"{what} [case {json.dumps(case)}]") for sig, what in v], o
+        finally:
+            shutil.rmtree(root, ignore_errors=True)
+    w = World(root)
     try:
         return judge(w, case)
     finally:
@@ -38,6 +45,92 @@ def load_dump(w):
         return json.load(open(w.dump))
     except FileNotFoundError:
         return None
+
+
+SEQ_WORLDS = 2
+SEQ_VARIANTS = 3
+VBSEQ_PATH = None
+
+
+def seq_step(W, sym, k, root):
+    """one in-process invocation: world wi in content variant var (3 = descriptor removed)"""
+    wi, var, phase = sym
+    w = W[wi]
+    tag = f"{'xy'[wi]}{var}"
+    bp = None if var == 3 else VALID_BP_TOML.replace("verif/vb", f"verif/{tag}").replace("1.2.3", f"1.0.{var}") + f'\n[metadata]\nk = "{tag}"\n'
+    dump = os.path.join(root, f"dump-{k}.json")
+    script = os.path.join(root, f"script-{k}.json")
+    writes = [[w.p("bp", "buildpack.toml"), bp], [w.p("platform", "env", "VAR"), tag], [w.p("platform", "env", "ONLY2"), "two" if var == 2 else None],
+              [w.p("bp_plan.toml"), f'[[entries]]\nname = "dep-{tag}"\n\n[entries.metadata]\nv = "{tag}"\n'], [w.p("layers", "store.toml"), f'[metadata]\ns = "{tag}"\n'],
+              [script, json.dumps({"dump": dump, "log": w.log})], [dump, None]]
+    env = dict(DEFAULT_TARGET_ENV)
+    env["CNB_TARGET_ARCH"] = ["amd64", "arm64", "amd64"][var - 1]
+    env["CNB_TARGET_DISTRO_VERSION"] = f"{var}.04"
+    if var == 2:
+        env["CNB_TARGET_ARCH_VARIANT"] = "v8"
+    env["CNB_BUILDPACK_DIR"] = w.p("bp")
+    env["VB_SCRIPT"] = script
+    args = [w.p("platform"), w.p("plan.toml")] if phase == "detect" else [w.p("layers"), w.p("platform"), w.p("bp_plan.toml")]
+    return {"phase": phase, "cwd": w.p("app"), "env": env, "args": args, "writes": writes, "collect": []}, dump
+
+
+def run_seq(W, syms, root):
+    import subprocess
+    steps, dumps = [], []
+    for k, sym in enumerate(syms):
+        st, d = seq_step(W, sym, k, root)
+        steps.append(st)
+        dumps.append(d)
+    sp = os.path.join(root, "steps.json")
+    json.dump(steps, open(sp, "w"))
+    r = subprocess.run([VBSEQ_PATH, sp], env={"PATH": "/usr/bin:/bin"}, stdout=subprocess.PIPE, stderr=subprocess.PIPE, timeout=60)
+    if r.returncode != 0:
+        return None, r.stderr.decode(errors="replace")[-300:]
+    res = json.loads(r.stdout.decode().strip().splitlines()[-1])
+    out = []
+    for step_res, d in zip(res, dumps):
+        dump = None
+        if os.path.exists(d):
+            dump = json.load(open(d))
+            os.unlink(d)
+        out.append({"ok": step_res["ok"], "code": step_res.get("code"), "error": step_res.get("error"), "dump": dump})
+    return out, ""
+
+
+def judge_sequence(root, case):
+    """differential oracle: every step of an in-process sequence of detect/build calls must give the
+    buildpack code the same context (and the caller the same result) as that step run alone in a
+    fresh process"""
+    v = []
+    os.makedirs(root, exist_ok=True)
+    W = [World(os.path.join(root, n)) for n in ("X", "Y")[:SEQ_WORLDS]]
+    syms = [tuple(x) for x in case["symbols"]]
+    solo = {}
+    for sym in sorted(set(syms)):
+        got, err = run_seq(W, [sym], root)
+        if got is None:
+            raise Machinery(f"vbseq died on a single step {sym}: {err}")
+        solo[sym] = got[0]
+        if (sym[1] == 3) == got[0]["ok"] or (got[0]["ok"] and got[0]["dump"] is None):
+            # the single invocation itself is judged by the other case kinds; here only its shape
+            v.append(("sequence-solo-shape", f"single invocation {sym} gave {str(got[0])[:300]}"))
+            return v, "sequence:solo-odd"
+    got, err = run_seq(W, syms, root)
+    if got is None:
+        v.append(("in-process-sequence:died", f"the process running {syms} died: {err}"))
+        return v, "sequence:died"
+    for k, (sym, g) in enumerate(zip(syms, got)):
+        want = solo[sym]
+        if g != want:
+            field = "result"
+            if g["ok"] == want["ok"] and g["dump"] and want["dump"]:
+                field = next((f for f in want["dump"]["context"] if g["dump"]["context"].get(f) != want["dump"]["context"][f]), "dump")
+                detail = f"{field}: {json.dumps(g['dump']['context'].get(field))[:300]} instead of {json.dumps(want['dump']['context'][field])[:300]}"
+            else:
+                detail = f"ok={g['ok']} code={g['code']} error={g['error']} phase-ran={g['dump'] is not None}; alone: ok={want['ok']} code={want['code']} error={want['error']} phase-ran={want['dump'] is not None}"
+            v.append((f"in-process-sequence:{field}", f"step {k + 1} of the in-process sequence {syms} (world, variant, phase) differs from the same invocation run alone: {detail}"))
+            break
+    return v, f"sequence:{len(syms)}:{''.join('o' if g['ok'] else 'e' for g in got)}"
 
 
 def judge(w, case):
@@ -273,14 +366,21 @@ def cases(thorough):
     for where in ("store", "plan", "descriptor"):
         for how in ("non-utf8", "directory", "dangling", "malformed"):
             out.append({"kind": "unreadable", "where": where, "how": how})
+    # D. in-process sequences of programmatic detect/build invocations (two worlds x three content
+    # variants x two phases), every sequence up to the length bound
+    symbols = [(wi, var, ph) for wi in range(SEQ_WORLDS) for var in range(1, SEQ_VARIANTS + 1) for ph in ("detect", "build")]
+    for n in range(2, (4 if thorough else 3) + 1):
+        for seq in itertools.product(symbols, repeat=n):
+            out.append({"kind": "sequence", "symbols": [list(x) for x in seq]})
     return out
 
 
 def run(ctx):
-    global VB_PATH
+    global VB_PATH, VBSEQ_PATH
     ensure_vb()
     import vbcommon
     VB_PATH = vbcommon.VB
+    VBSEQ_PATH = os.path.join(os.path.dirname(VB_PATH), "vbseq")
     res = Result(ctx, "exploration")
     if ctx.replay:
         doc = json.load(open(ctx.replay))
@@ -297,17 +397,19 @@ def run(ctx):
     if a != b:
         raise Machinery("C06: the same case gave two different observations")
     outcomes = set()
-    with ProcessPoolExecutor(max_workers=16, initializer=_init, initargs=(VB_PATH,)) as ex:
+    with ProcessPoolExecutor(max_workers=16, initializer=_init, initargs=(VB_PATH, VBSEQ_PATH)) as ex:
         for (v, o), case in zip(ex.map(run_case, [(i, c, ctx.scratch) for i, c in enumerate(cs)], chunksize=32), cs):
             outcomes.add(o)
             for sig, what in v:
                 res.violation(sig, what, {"case": case})
-    nontrivial = sum(1 for c in cs if (c["kind"] == "platform-env" and c["entries"]) or c["kind"] == "toml" or (c["kind"] == "target" and any(x != 0 for x in c["values"])))
+    nontrivial = sum(1 for c in cs if (c["kind"] == "platform-env" and c["entries"]) or c["kind"] == "toml" or (c["kind"] == "target" and any(x != 0 for x in c["values"]))
+                     or (c["kind"] == "sequence" and len({tuple(x[:2]) for x in c["symbols"]}) > 1))
+    res.cov("in_process_sequences", sum(1 for c in cs if c["kind"] == "sequence"))
     res.cov("evaluations", len(cs))
     res.cov("distinct_nontrivial", nontrivial)
     res.cov("distinct_outcomes", sorted(outcomes))
     res.cov("determinism_replays", 6)
-    res.cov("rule", "platform env: all sets of <=2 (thorough: <=3 over a reduced kind set) entries with distinct names over 6 names (dots, space, '=', non-ASCII, non-UTF-8) x 9 kinds (4 file contents, directory, symlink to file/dir, dangling, non-UTF-8 content); env/platform dir missing; target: every present/absent x value combination of the five CNB_TARGET_* variables (quick: <=2 non-default) over values {linux, '', 'a b', non-UTF-8}; TOML: every value kind (18 strings, ints incl. extremes, floats incl. inf/nan/-0, bools, 4 datetime kinds, arrays/tables depth 2) in plan entry metadata, store and descriptor metadata; all through the real detect/build runtime. non-trivial = case with at least one non-default input")
+    res.cov("rule", "platform env: all sets of <=2 (thorough: <=3 over a reduced kind set) entries with distinct names over 6 names (dots, space, '=', non-ASCII, non-UTF-8) x 9 kinds (4 file contents, directory, symlink to file/dir, dangling, non-UTF-8 content); env/platform dir missing; target: every present/absent x value combination of the five CNB_TARGET_* variables (quick: <=2 non-default) over values {linux, '', 'a b', non-UTF-8}; TOML: every value kind (18 strings, ints incl. extremes, floats incl. inf/nan/-0, bools, 4 datetime kinds, arrays/tables depth 2) in plan entry metadata, store and descriptor metadata; all through the real detect/build runtime; in-process sequences: every sequence of 2..3 (thorough: ..4) programmatic libcnb_runtime_detect/libcnb_runtime_build calls in ONE process over 12 symbols (2 worlds x 3 content variants of descriptor, platform env, plan, store and target variables, one of them with the descriptor removed, x 2 phases), each step compared with the same invocation run alone in a fresh process. non-trivial = case with at least one non-default input")
     res.cov("exhaustive", True)
     res.sample(cs[3])
     res.sample(cs[len(cs) // 2])
@@ -316,6 +418,7 @@ def run(ctx):
     return res.done()
 
 
-def _init(vb):
-    global VB_PATH
+def _init(vb, vbseq):
+    global VB_PATH, VBSEQ_PATH
     VB_PATH = vb
+    VBSEQ_PATH = vbseq
